@@ -117,7 +117,7 @@ def schedule_fn(variant):
 def config(mon, rng, variant, tier):
     K = int(rng.choice([1, 2, 5, 32, 500, 10000], p=[0.2, 0.2, 0.2, 0.2, 0.15, 0.05]))
     m = int(rng.integers(2, 7))
-    delta = float(rng.choice([10 ** rng.uniform(-6, -0.3), rng.uniform(0.5, 0.999), 0.999]))
+    delta = float(rng.choice([10 ** rng.uniform(-6, -0.3), rng.uniform(0.5, 0.999), 0.999, 10 ** rng.uniform(-40, -10)]))  # any delta in (0,1)
     bandit = variant in ("PaVeBa", "Auer")
     noise_var = float(10 ** rng.uniform(-4, 0 if variant == "Auer" else 2))
     if variant == "Auer" and rng.random() < 0.3:
